@@ -145,6 +145,8 @@ Definition walk (t : tree) (prefix delim marker : string) (max : nat) (skipdirs 
       | _ => Some {| r_objs := objs s; r_cps := sort_strs (cps s); r_trunc := truncated s;
                      r_next := if truncated s then newMarker s else "" |}
       end in
+  (* a prefix that leads below a bookkeeping directory names nothing that is listed *)
+  if existsb (fun sd => String.eqb root sd || has_prefix root (sd ++ "/")) skipdirs then Some empty_result else
   if String.eqb root "." then run t "."
   else
     let segs := split_slash root "" in
